@@ -70,6 +70,9 @@ def split_tokens(text):
     return TOKEN_RE.findall(text)
 
 
+JUNK_COUNTS = (1, 4, 12, 40)
+
+
 def damage_ops(text):
     """all single damages of a text: (op, at) pairs"""
     ops = []
@@ -88,6 +91,11 @@ def damage_ops(text):
         ops.append(("linedel", i))
         ops.append(("linedup", i))
         ops.append(("lineswap", i))
+    # a line of k characters that no lexer of the seven knows (each becomes one Error token): pasted binary, a merge-conflict
+    # leftover, another language's sigils - before every line, few and many (more than a small function has tokens)
+    for i in range(len(lines)):
+        for k in JUNK_COUNTS:
+            ops.append((f"junk{k}", i))
     return ops
 
 
@@ -110,6 +118,8 @@ def apply_damage(text, op, at):
                 toks[at], toks[j] = toks[j], toks[at]
         return "".join(toks)
     lines = text.split("\n")
+    if op.startswith("junk"):
+        return "\n".join(lines[:at] + [" ".join("\u00a7" * int(op[4:]))] + lines[at:])
     if op == "linedel":
         lines = lines[:at] + lines[at + 1:]
     elif op == "linedup":
